@@ -4,7 +4,7 @@ use super::{Operator, OperatorError, OperatorResult};
 use crate::execution::DataChunk;
 use crate::graph::Direction;
 use crate::graph::lpg::LpgStore;
-use grafeo_common::types::{EdgeId, EpochId, LogicalType, NodeId, TxId};
+use grafeo_common::types::{EdgeId, EpochId, LogicalType, NodeId, TxId, Value};
 use std::sync::Arc;
 
 /// An expand operator that traverses edges from source nodes.
@@ -115,9 +115,17 @@ impl ExpandOperator {
             OperatorError::ColumnNotFound(format!("Column {} not found", self.source_column))
         })?;
 
-        let source_id = col
-            .get_node_id(self.current_row)
-            .ok_or_else(|| OperatorError::Execution("Expected node ID in source column".into()))?;
+        let Some(source_id) = col.get_node_id(self.current_row) else {
+            // A NULL source (the unmatched side of an OPTIONAL MATCH) has no edges.
+            if matches!(col.get_value(self.current_row), None | Some(Value::Null)) {
+                self.current_edges = Vec::new();
+                self.current_edge_idx = 0;
+                return Ok(true);
+            }
+            return Err(OperatorError::Execution(
+                "Expected node ID in source column".into(),
+            ));
+        };
 
         // Get visibility context
         let epoch = self.viewing_epoch;
